@@ -1663,27 +1663,42 @@ fn compile_expr(
                 ty: ty.clone(),
             }
         }
-        ETraitMethod { ty, .. } => {
-            // ETraitMethod should only appear as the func of ECall
-            // If it appears standalone, we can't resolve the implementation without knowing the self type
-            panic!(
-                "ETraitMethod should only appear as the function in ECall, not standalone. Type: {:?}",
-                ty
-            );
+        // A method path is resolved at the call it is the function of (the implementation
+        // depends on the receiver); anywhere else it has no value to stand for.
+        ETraitMethod {
+            trait_name,
+            method_name,
+            ty,
+            ..
         }
-        EDynTraitMethod { ty, .. } => {
-            panic!(
-                "EDynTraitMethod should only appear as the function in ECall, not standalone. Type: {:?}",
-                ty
-            );
+        | EDynTraitMethod {
+            trait_name,
+            method_name,
+            ty,
+            ..
+        } => {
+            diagnostics.push(Diagnostic::new(
+                Stage::other("compile"),
+                Severity::Error,
+                format!(
+                    "method {}::{} can only be called; wrap it in a closure to use it as a value",
+                    trait_name.0, method_name.0
+                ),
+            ));
+            emissing(ty)
         }
-        EInherentMethod { ty, .. } => {
-            // EInherentMethod should only appear as the func of ECall
-            // If it appears standalone, we can't resolve the implementation without knowing the self type
-            panic!(
-                "EInherentMethod should only appear as the function in ECall, not standalone. Type: {:?}",
-                ty
-            );
+        EInherentMethod {
+            method_name, ty, ..
+        } => {
+            diagnostics.push(Diagnostic::new(
+                Stage::other("compile"),
+                Severity::Error,
+                format!(
+                    "method {} can only be called; wrap it in a closure to use it as a value",
+                    method_name.0
+                ),
+            ));
+            emissing(ty)
         }
         EToDyn {
             trait_name,
